@@ -833,6 +833,24 @@ impl<'b> InnerBucket<'b> {
             let mut node = node.borrow_mut();
             // If this is a leaf node or our second time visiting a branch node, try to merge it
             if visited || node.leaf() {
+                // An only child that ended up empty could not be removed when it was visited
+                // (it has no sibling to take its place), so drop it now that we are back at
+                // its parent. Otherwise it would be spilled as an empty node.
+                if !node.leaf() && node.data.len() == 1 && node.children.len() == 1 {
+                    let child = self.nodes[node.children[0] as usize].clone();
+                    let mut child = child.borrow_mut();
+                    if child.data.len() == 0 {
+                        child.free_page(tx_freelist);
+                        child.deleted = true;
+                        node.children.clear();
+                        // A root left without any branches becomes an empty leaf again.
+                        node.data = if node.page_id == self.meta.root_page {
+                            NodeData::Leaves(Vec::new())
+                        } else {
+                            NodeData::Branches(Vec::new())
+                        };
+                    }
+                }
                 // Do nothing if this node needs no merging
                 if !node.needs_merging() {
                     continue;
